@@ -108,7 +108,7 @@ def run(env, w):
 
 
 # --------------------------------------------------------------------------- (a)
-def build_state(env, keys, ncomp=2):
+def build_state(env, keys, ncomp=2, extra_any=False):
     """Arbitrary pre-state satisfying the invariant, built through the public API:
     totals symbolic; two computations allocate symbolic amounts of each key in turn."""
     tot = {k: env.int("tot_" + k.replace(":", "_"), 0, Q) for k in keys}
@@ -121,6 +121,15 @@ def build_state(env, keys, ncomp=2):
                 rk = R(k)
                 env.assume(res.get_available_quantity(rk) >= q)
                 res.allocate(rk, c, q)
+    if extra_any:
+        # the first computation also holds an 'any' request of the first resource name: it lands on instances it may already hold
+        # (two records of one computation on one instance)
+        nm0 = keys[0].split(":")[0]
+        if env.bool("has_any_0"):
+            qa = env.int("q_any_0", 0, Q)
+            ra = Resource(name=nm0, _id="any")
+            env.assume(res.get_available_quantity(ra) >= qa)
+            res.allocate(ra, comps[0], qa)
     return res, comps, tot
 
 
@@ -139,7 +148,7 @@ def invariant(env, res, keys, label):
 def run_res(env, w):
     keys, op = w["keys"], w["op"]
     names = sorted({k.split(":")[0] for k in keys})
-    res, comps, tot = build_state(env, keys, w.get("ncomp", 2))
+    res, comps, tot = build_state(env, keys, w.get("ncomp", 2), extra_any=(op == "deallocate"))
     invariant(env, res, keys, "pre:invariant")
     before = getters(res, names, keys)
     own0 = [owned(res, c, names) for c in comps]
@@ -307,7 +316,7 @@ def run_hist(env, w):
     batches = [BatchStrategy(bbase), BatchStrategy(bbase)]
     pd = {"GPU": env.int("p_gpu", dlo, Q)}
     load_strat = ExecutionStrategy(resources=Resources({Resource(name="GPU", _id="any"): pd["GPU"]}, _logger=NULL), batch_size=1,
-                                   runtime=EventTime(5, US))
+                                   runtime=EventTime(3, US))  # one step of 3us completes the load
     prof = WorkProfile(name="P", loading_strategies=ExecutionStrategies([load_strat]))
     tasks = [mk_task(i) for i in range(3)]
     nworkers = 1 if level == "worker" else 2
@@ -380,11 +389,12 @@ def run_hist(env, w):
     if w.get("alphabet") == "batch":
         alphabet = ["place_b0", "place_b1", "remove", "place_s0"]
     trace = []
-    for step in range(L + 3):
+    for step in range(L + 4):
         if step < L:
             op = alphabet[env.choose(len(alphabet), f"op{step}")]
         else:
-            op = ["step", "copy", "deepcopy"][step - L]
+            # a copy while a load may still be pending, a step that completes it, a copy with the profile available, a deepcopy
+            op = ["copy", "step", "copy", "deepcopy"][step - L]
         before = snapshot(workers)
         tag = f"{trace}+{op}"
         env.ctx = tag
@@ -515,6 +525,11 @@ def run_hist(env, w):
                 env.require("copy:same-occupancy-removable", removed, info=tag + f" remove {t.name} kind={led[t][1]}")
                 if removed:
                     del cled[t]
+            if cprof:
+                # schedulers that plan model loading evict profiles on their copy (Clockwork's load thread): the original keeps its profile
+                kk = sorted(cprof)[0]
+                cw[kk].evict_profile(prof)
+                cprof.discard(kk)
             check_state(cw, cled, cprof, tag + "@copy")
             env.require("copy:independent", snap_equal(before, snapshot(workers)), info=tag)
         elif op == "deepcopy":
